@@ -42,6 +42,32 @@ def collect(rep, tier, rnd):
                         continue
                     traces.append(ev)
                     meta.append(m)
+    # path(): the same batching contract during the initial fit and every epoch of every step (mode "path": the number of
+    # epochs is decided by the patience rule, everything else is judged as in fit); dynamic mode trains each step with the
+    # affinity of the currently selected variables
+    from vf import path as vpath
+    from gemclus.sparse import SparseLinearMMD, SparseMLPMMD, SparseLinearModel
+    from gemclus.gemini import MMDGEMINI
+    for n in ([5] if tier == "quick" else [4, 5, 7]):
+        A = train.id_affinity(n)
+        for cls, kw, y, dyn in ((SparseLinearMMD, dict(kernel="precomputed"), A, False), (SparseMLPMMD, dict(kernel="precomputed", n_hidden_dim=3), A, False),
+                                (SparseLinearModel, dict(gemini=MMDGEMINI(kernel=train.IdKernel(n))), None, False),
+                                (SparseLinearMMD, dict(kernel="linear"), None, True), (SparseMLPMMD, dict(kernel="rbf", n_hidden_dim=3), None, True)):
+            for bs in ([2, None] if tier == "quick" else [1, 2, n - 1, None]):
+                X = train.make_data(n, 3, rnd)
+                if dyn:
+                    X[:, 1:] += np.array([[rnd.gauss(0, 1) for _ in range(2)] for _ in range(n)])
+                with warnings.catch_warnings():
+                    warnings.simplefilter("ignore")
+                    m = cls(n_clusters=2, max_iter=2, alpha=0.3, learning_rate=0.2, batch_size=bs, dynamic=dyn, random_state=rnd.randint(0, 9), **kw)
+                    out = vpath.record_path(m, X, y, max_calls=5000, alpha_multiplier=2.0, min_features=1, max_patience=2)
+                desc = dict(family=f"{cls.__name__}.path", n=n, batch_size=bs, dynamic=dyn, decorated=False, solver="adam+sgd", max_iter=2)
+                rep.case(desc)
+                if out["err"] is not None:
+                    rep.violation(f"path raised {type(out['err']).__name__}: {out['err']} for {desc}", {"meta": desc}, tags=("raises", cls.__name__))
+                    continue
+                traces.append(out["train"])
+                meta.append(desc)
     return traces, meta
 
 
